@@ -79,6 +79,7 @@ pub struct RawHeader {
     pub alpha_type: Option<u8>,
     pub has_mips: u32,
     /// BLP0/1 only
+    #[allow(dead_code)]
     pub extra: Option<u32>,
     pub w: u32,
     pub h: u32,
